@@ -23,8 +23,13 @@
       chunk flush writer / plain) as a total function of (request method, status, header), which writers
       read the body, and what `handle` makes of an accepted upstream reply (`relay`, incl. the `panicBody`
       sentinel of `handleUpgradeResponse` and the 502 for a `101` that is no protocol switch).
+  §7  `addr2Host` (net_metrics.go): the `host` label of the dialer's metrics as a function of the dialled
+      address, with UTF-8 validity (RFC 3629) as a predicate on bytes; the two ways to bound a label.
+  §8  the handler variant (proxy_handler.go `writeResponse` under net/http's server): what the client reads
+      when the body copy fails, as a function of what the handler does with the error (`CopyPolicy`).
 -/
 import FwdVerif.Model.Resp
+import FwdVerif.Model.RespSpec
 
 namespace FwdVerif
 namespace C12
@@ -858,6 +863,213 @@ def relayConnectWith (sel : Selector) (status : Nat) (h : HMap) (r : ResFacts) :
 
 def relayConnect (status : Nat) (h : HMap) (r : ResFacts) : Relayed :=
   relayConnectWith selectWriter status h r
+
+/-! ## §7 the dialer's metric label (`net_metrics.go`: `addr2Host`)
+
+  `forwarder.Dialer` counts every dial, error, retry and close under the label `host = addr2Host(address)`
+  (`dialer_errors_total{host=…}` …).  The address is what the client named (CONNECT authority, absolute-form
+  URL, `Host` field), after `--connect-to`.  prometheus' `WithLabelValues` panics on a value that is not
+  valid UTF-8 — inside `Dialer.DialContext`, on goroutines nobody recovers: the label function is what
+  stands between a hostile host name and the death of the process (F35, repaired). -/
+
+/-- `UTF8-tail` of RFC 3629 §4 -/
+def tailByte (b : UInt8) : Bool := 0x80 ≤ b && b ≤ 0xBF
+
+/-- `UTF8-char` of RFC 3629 §4 — the well-formed encodings of one Unicode scalar value (no overlong
+    forms, no surrogates, nothing above U+10FFFF); the same table as `unicode/utf8`'s `first` /
+    `acceptRanges` -/
+def utf8Char : Bytes → Bool
+  | [a] => a ≤ 0x7F
+  | [a, b] => 0xC2 ≤ a && a ≤ 0xDF && tailByte b
+  | [a, b, c] =>
+    ((a == 0xE0 && 0xA0 ≤ b && b ≤ 0xBF) || (0xE1 ≤ a && a ≤ 0xEC && tailByte b) ||
+      (a == 0xED && 0x80 ≤ b && b ≤ 0x9F) || (0xEE ≤ a && a ≤ 0xEF && tailByte b)) && tailByte c
+  | [a, b, c, d] =>
+    ((a == 0xF0 && 0x90 ≤ b && b ≤ 0xBF) || (0xF1 ≤ a && a ≤ 0xF3 && tailByte b) ||
+      (a == 0xF4 && 0x80 ≤ b && b ≤ 0x8F)) && tailByte c && tailByte d
+  | _ => false
+
+/-- valid UTF-8 (RFC 3629 `UTF8-octets = *( UTF8-char )`): the bytes decode as a sequence of well-formed
+    scalar encodings -/
+def ValidUTF8 (l : Bytes) : Prop := ∃ cs : List Bytes, (∀ c ∈ cs, utf8Char c = true) ∧ l = cs.flatten
+
+/-- the length of the encoding a lead byte announces -/
+def leadLen (a : UInt8) : Nat := if a < 0x80 then 1 else if a < 0xE0 then 2 else if a < 0xF0 then 3 else 4
+
+def validUTF8Aux : Nat → Bytes → Bool
+  | _, [] => true
+  | 0, _ :: _ => false
+  | fuel + 1, a :: rest =>
+    utf8Char ((a :: rest).take (leadLen a)) && validUTF8Aux fuel ((a :: rest).drop (leadLen a))
+
+/-- `utf8.ValidString`: decode encoding after encoding from the front (`c12_validUTF8_iff`: it decides
+    `ValidUTF8`) -/
+def validUTF8 (l : Bytes) : Bool := validUTF8Aux l.length l
+
+def commonLocalhostNames : List Bytes := [bs "localhost", bs "127.0.0.1", bs "::1", bs "::"]
+
+/-- `addr2Host`, as it is: the host of the address; the fixed names for an address that does not split, for
+    localhost in its spellings and for a host that is not valid UTF-8.  There is no length bound. -/
+def addr2Host (addr : Bytes) : Bytes :=
+  match Req.netSplitHostPort addr with
+  | none => bs "unknown"
+  | some (host, _) =>
+    if commonLocalhostNames.contains host then bs "localhost"
+    else if Req.isLoopbackLiteral host || Req.isUnspecifiedLiteral host then bs "localhost"
+    else if !validUTF8 host then bs "invalid"
+    else host
+
+/-! ### NOT the code: bounding the label.  A step behind the validity check has to keep what the check
+    established; cutting at a byte offset does not (`c12_label_byte_truncation_witness`), cutting at an
+    encoding boundary does (`c12_label_rune_truncation_valid`). -/
+
+/-- `host[:n]` -/
+def truncBytes (n : Nat) (l : Bytes) : Bytes := l.take n
+
+def truncRunesAux : Nat → Nat → Bytes → Bytes
+  | _, _, [] => []
+  | 0, _, _ :: _ => []
+  | fuel + 1, n, a :: rest =>
+    if leadLen a ≤ n then
+      (a :: rest).take (leadLen a) ++ truncRunesAux fuel (n - leadLen a) ((a :: rest).drop (leadLen a))
+    else []
+
+/-- the longest prefix of whole encodings that fits into `n` bytes -/
+def truncRunes (n : Nat) (l : Bytes) : Bytes := truncRunesAux l.length n l
+
+/-- the label function followed by a bounding step -/
+def boundedLabel (cut : Bytes → Bytes) (addr : Bytes) : Bytes := cut (addr2Host addr)
+
+/-! ## §8 the proxy served through martian's `http.Handler` (`proxy_handler.go`, under net/http's server)
+
+  `proxyHandler.writeResponse` copies the upstream body into the `http.ResponseWriter`; the server frames it
+  (`Content-Length` when the upstream declared one, chunked otherwise, close-delimited for an HTTP/1.0
+  client).  When the copy fails the handler must `panic(http.ErrAbortHandler)`: net/http then drops the
+  connection without finishing the message.  A handler that RETURNS lets the server finish it: the
+  terminating chunk is appended and the connection is kept — a torn body becomes a well-formed message. -/
+
+/-- what ends the body copy early -/
+inductive CopyErr where
+  | upstreamEOF         -- the origin closed inside the body: `io.ErrUnexpectedEOF`
+  | upstreamReset       -- the origin reset the connection: `ECONNRESET`
+  | upstreamMalformed   -- e.g. an invalid chunk size: none of the errors `isClosedConnError` knows
+  | clientGone          -- the write to the client failed
+  deriving DecidableEq, Repr
+
+/-- `isClosedConnError(err)`: EOF, unexpected EOF, ECONNRESET / ECONNABORTED, "use of closed network
+    connection" — whichever side of the copy reports them -/
+def CopyErr.closedConnLike : CopyErr → Bool
+  | .upstreamMalformed => false
+  | _ => true
+
+inductive HandlerEnd where
+  | abort      -- `panic(http.ErrAbortHandler)`
+  | returns    -- the handler returns normally
+  deriving DecidableEq, Repr
+
+/-- what `writeResponse` does with the error of the body copy -/
+abbrev CopyPolicy := CopyErr → HandlerEnd
+
+/-- the code as it is: every error aborts -/
+def abortAlways : CopyPolicy := fun _ => .abort
+
+/-- NOT the code: "the client went away, nobody is left to abort the response for" -/
+def returnOnClosedConn : CopyPolicy := fun e => if e.closedConnLike then .returns else .abort
+
+/-- framing net/http's server gives the response on the client connection -/
+def handlerFraming (ex : Exchange) : Framing :=
+  match ex.framing with
+  | .cl n => .cl n
+  | _ => if ex.clientMinor == 0 then .eof else .chunked
+
+/-- the connection is kept after a complete response -/
+def handlerKeeps (ex : Exchange) : Bool := !ex.reqClose && ex.clientMinor != 0
+
+/-- the exchange without a fault; a close-delimited origin body that the origin ends after `n` bytes -/
+def handlerComplete (ex : Exchange) (n : Nat) : ClientObs :=
+  match handlerFraming ex with
+  | .eof => .complete ex.id .eof n false
+  | fr => .complete ex.id fr n (handlerKeeps ex)
+
+def handlerOk (ex : Exchange) : ClientObs :=
+  match ex.kind with
+  | .connect => .tunnel ex.id
+  | _ => handlerComplete ex ex.bodyLen
+
+/-- net/http's server after the handler is through with a body of which `delivered` bytes were written -/
+def serverEnd (ex : Exchange) (delivered : Nat) : HandlerEnd → ClientObs
+  | .abort =>
+    -- the connection is closed, nothing is appended
+    match handlerFraming ex with
+    | .eof =>
+      -- an HTTP/1.0 client: the close is also how a complete body ends (F37 / F13 in this mode)
+      if ex.framing == .chunked && delivered == ex.bodyLen then .complete ex.id .eof ex.bodyLen false
+      else .prefixThenClose ex.id .eof delivered false .fin
+    | fr => .prefixThenClose ex.id fr delivered false .fin
+  | .returns =>
+    -- the server completes the message
+    match handlerFraming ex with
+    | .cl n =>
+      -- "wrote less than declared Content-Length": the connection is closed
+      if delivered == n then .complete ex.id (.cl n) n (handlerKeeps ex)
+      else .prefixThenClose ex.id (.cl n) delivered false .fin
+    | .chunked => .complete ex.id .chunked delivered (handlerKeeps ex)   -- last-chunk appended, connection kept
+    | .eof => .complete ex.id .eof delivered false
+
+/-- the error of the copy when the origin's body ends after `k` payload bytes (`none`: the end of a
+    close-delimited body is its regular end) -/
+def copyErrOf (ex : Exchange) (reset : Bool) : Option CopyErr :=
+  if reset then some .upstreamReset
+  else if ex.framing == .eof then none else some .upstreamEOF
+
+def handlerBodyCutWith (p : CopyPolicy) (ex : Exchange) (k : Nat) (reset : Bool) (lost : Nat) : ClientObs :=
+  match copyErrOf ex reset with
+  | none => handlerComplete ex k
+  | some e => serverEnd ex (k - lost) (p e)
+
+/-- `clientStream` for the handler variant with the copy policy `p`: faults before the reply head is
+    complete are answered by the same `errorResponse` -/
+def handlerStreamWith (p : CopyPolicy) (f : Fault) (ex : Exchange) : ClientObs :=
+  match faultErr f ex with
+  | some k =>
+    match errorObs ex k with
+    | .errorResponse id st l _ => .errorResponse id st l (handlerKeeps ex)
+    | .relayedRejection id st wf _ => .relayedRejection id st wf (handlerKeeps ex)
+    | o => o
+  | none =>
+    match f with
+    | .connectReply (.rejected s _) =>
+      -- `handleConnectRequest` hands the upstream proxy's response to `writeResponse`; a reply without
+      -- Content-Length is read to its end and goes out chunked: the client connection is kept either way
+      if usesConnect ex && ex.kind == .connect then .relayedRejection ex.id s true (handlerKeeps ex)
+      else handlerOk ex
+    | .connectReply (.rejectedCut _ n k) =>
+      -- its body is copied like any other: the copy fails, the policy decides (Content-Length framing:
+      -- the server's accounting closes the connection either way)
+      if usesConnect ex && ex.kind == .connect then .prefixThenClose ex.id (.cl n) k false .fin
+      else handlerOk ex
+    | .bodyCut k reset lost => if ex.kind == .connect then handlerOk ex else handlerBodyCutWith p ex k reset lost
+    | _ => handlerOk ex
+
+/-- the code as it is -/
+def handlerStream (f : Fault) (ex : Exchange) : ClientObs := handlerStreamWith abortAlways f ex
+
+/-! ### the same at the level of bytes: what follows the response head on the client connection -/
+
+/-- the body bytes the server writes for the pieces the copy handed it (one chunk per flushed write under
+    chunked framing), and how it ends: the last-chunk only when the handler returned -/
+def handlerBodyWire (fr : Framing) (pieces : List Bytes) (e : HandlerEnd) : Bytes :=
+  match fr with
+  | .chunked => pieces.flatMap Resp.encodeChunk ++ (match e with | .returns => 48 :: Resp.crlf ++ Resp.crlf | .abort => [])
+  | _ => pieces.flatten
+
+/-- does a reader (the RFC 7230 reader of `Model/RespSpec.lean`) take the bytes between the head and the
+    close for a complete body? -/
+def bodyParsesComplete (fr : Framing) (wire : Bytes) : Bool :=
+  match fr with
+  | .cl n => n ≤ wire.length
+  | .chunked => (Resp.decodeChunked wire).isSome
+  | .eof => true
 
 end C12
 end FwdVerif
